@@ -95,6 +95,8 @@ pub fn carriers() -> Vec<(&'static str, &'static str)> {
         ("return-in-list", "f = || [1, 2, return 3]\nf()\nthrow 'after'\n"),
         ("break-in-list", "for x in (1, 2)\n  y = [x, (x, break)]\nthrow 'after'\n"),
         ("let-hint", "let x: String = 1\n"),
+        ("export-let-hint", "export let bad_export: Number = 'str'\n"),
+        ("export-multi-hint", "export let bad_a: Number, bad_b: Number = 'x', 1\n"),
         ("arg-hint", "f = |x: String| x\nf 1\n"),
         ("ret-hint", "f = |x| -> String\n  x\nf 1\n"),
         ("compile-error", "x = (1,\n"),
